@@ -38,6 +38,23 @@ class Exists:
         self.witnesses = witnesses  # optional explicit candidates (list of idx tuples)
 
 
+class ExistsInt:
+    """There exist integers v_1..v_n with body(v).  prove: the witness tuples are supplied by
+    `witnesses()` (typically ghost values recorded from stub calls); assume: fresh integers;
+    concrete: `candidates()` enumerates tuples to try."""
+
+    def __init__(self, n, fn, witnesses=None, candidates=None):
+        self.n, self.fn, self.witnesses, self.candidates = n, fn, witnesses, candidates
+
+
+def hint(*idx):
+    """Instantiation hint usable inside clause bodies: use universals of rank len(idx) at idx."""
+    c = ctx()
+    if not c.concrete:
+        c.touch_index(tuple(idx), depth=0)
+    return True
+
+
 class AnyOf:
     """Disjunction of existential / leaf formulas (positive positions only, never assumed)."""
 
@@ -61,7 +78,7 @@ def _bounds(idx, dims):
 
 
 def _is_leaf(f):
-    return not isinstance(f, (Forall, Exists, All, Imp, AnyOf))
+    return not isinstance(f, (Forall, Exists, All, Imp, AnyOf, ExistsInt))
 
 
 def _exists_alternatives(c, f):
@@ -82,18 +99,50 @@ def _exists_alternatives(c, f):
 
 
 def prove(name, f, kind="post", hyps=()):
-    """Generate obligations for formula f under the current path state."""
+    """Generate and discharge obligations for formula f under the current path state.
+
+    Every leaf goal is discharged in its own instantiation scope: its Skolem indices and hints
+    are dropped before the next goal, so sibling goals do not pollute each other's queries."""
     c = ctx()
-    c.in_spec += 1
-    try:
-        goals = []
-        _strip(c, f, list(hyps), goals, name)
-    finally:
-        c.in_spec -= 1
+    if c.replaying:
+        return []
     obs = []
-    for gname, hyp, goal in goals:
-        obs.append(c.oblige(gname, goal, kind=kind, hyps=hyp))
+    _prove(c, f, list(hyps), name, kind, obs)
     return obs
+
+
+def _prove(c, f, hyps, name, kind, obs):
+    if isinstance(f, All):
+        for k, p in enumerate(f.parts):
+            _prove(c, p, list(hyps), "%s.%d" % (name, k) if len(f.parts) > 1 else name, kind, obs)
+        return
+    if isinstance(f, ExistsInt):
+        wits = list(f.witnesses() if f.witnesses else [])
+        if len(wits) > 1:
+            raise SpecError("ExistsInt: ambiguous ghost witnesses (%d)" % len(wits))
+        if wits:
+            c.in_spec += 1
+            try:
+                body = f.fn(*wits[0])
+            finally:
+                c.in_spec -= 1
+            _prove(c, body, hyps, name, kind, obs)
+            return
+    snap = c.push_goal_scope()
+    try:
+        c.in_spec += 1
+        try:
+            goals = []
+            _strip(c, f, list(hyps), goals, name)
+        finally:
+            c.in_spec -= 1
+        if len(goals) > 1 and not isinstance(f, (All,)):
+            # a quantifier with a conjunctive body: still one scope per leaf goal
+            pass
+        for gname, hyp, goal in goals:
+            obs.append(c.oblige(gname, goal, kind=kind, hyps=hyp))
+    finally:
+        c.pop_goal_scope(snap)
 
 
 def _strip(c, f, hyps, goals, name):
@@ -113,6 +162,14 @@ def _strip(c, f, hyps, goals, name):
             goals.append((name, hyps, False))
             return
         goals.append((name, hyps, or_(*alts) if len(alts) > 1 else alts[0]))
+    elif isinstance(f, ExistsInt):
+        wits = list(f.witnesses() if f.witnesses else [])
+        if not wits:
+            goals.append((name, hyps, False))
+            return
+        if len(wits) > 1:
+            raise SpecError("ExistsInt: ambiguous ghost witnesses (%d)" % len(wits))
+        _strip(c, f.fn(*wits[0]), hyps, goals, name)
     elif isinstance(f, AnyOf):
         alts = []
         for p in f.parts:
@@ -160,6 +217,9 @@ def _assume(c, f, guard):
             return implies(and_(guard, _bounds(idx, dims)), body)
 
         c.add_universal(rank, inst, f.name or "")
+    elif isinstance(f, ExistsInt):
+        w = tuple(c.fresh("e", "int") for _ in range(f.n))
+        _assume(c, f.fn(*w), guard)
     elif isinstance(f, Exists):
         w = tuple(c.fresh("w", "int") for _ in f.dims)
         c.touch_index(w)
@@ -202,6 +262,14 @@ def evaluate(f):
             if not ok:
                 return False, {"index": idx, "inner": w}
         return True, None
+    if isinstance(f, ExistsInt):
+        last = None
+        for cand in f.candidates():
+            ok, w = evaluate(f.fn(*cand))
+            if ok:
+                return True, None
+            last = {"candidate": cand, "inner": w}
+        return False, {"exists_int": "no candidate works", "last": last}
     if isinstance(f, AnyOf):
         for p in f.parts:
             ok, _ = evaluate(p)
